@@ -139,6 +139,20 @@ pub fn lookup_variable(
         return None;
     };
 
+    // A path binding (`p.x`, a closure's pre-evaluated capture) describes the `p` that was
+    // visible where it was defined. A binding of the bare name `p` in a scope further in
+    // (`p = [x: 2]` inside the function body) shadows it, so the path no longer applies and the
+    // caller has to go through the (new) base variable.
+    if !accessors.is_empty() {
+        let base_name = helpers::make_capture_name(name, &[]);
+        if scopes[binding_scope_idx + 1..]
+            .iter()
+            .any(|s| matches!(s.bindings.get(&base_name), Some(Binding::Variable { .. })))
+        {
+            return None;
+        }
+    }
+
     // Check for narrowings from current scope back to binding scope
     // (innermost narrowing takes precedence)
     for scope in scopes[binding_scope_idx..].iter().rev() {
